@@ -270,7 +270,7 @@ def averager():
 def tasks(tier):
     return [('contracts.c20', 'throttle_step', ()), ('contracts.c20', 'averager', ()),
             ('contracts.traces', 'transact_block', ('C20',))] + \
-        __import__('contracts.c03', fromlist=['x']).dependency_tasks('C20', ['get', 'set', 'pop'])     # each throttle / averager step is one block
+        __import__('contracts.c03', fromlist=['x']).dependency_tasks('C20', ['get', 'set', 'pop'], tier=tier)     # each throttle / averager step is one block
 
 
 def meta(results, tier):
